@@ -1,5 +1,6 @@
 """Props-level case generators and judges shared by C01-C05, C12, C13, C14."""
 import itertools, random
+from . import plevel_global
 
 # ---------------------------------------------------------------- parsing helpers
 def parse_doms(s):
@@ -112,8 +113,12 @@ def rand_view(rng, n, allow_const=True, depth=1):
 
 BASIC_KINDS = ["add", "sub", "leq", "lt", "geq", "gt", "eq", "sum", "lineq", "linle", "linne", "lineqr", "linler", "linner"]
 
+GLOBAL_KINDS = plevel_global.KINDS
+
 def rand_prop(rng, n, kinds=BASIC_KINDS, bools=()):
     k = rng.choice(kinds)
+    if k in plevel_global.KINDS:
+        return plevel_global.rand_prop(rng, n, k, rand_view)
     xv = lambda: "x%d" % rng.randrange(n)
     if k in ("add", "sub"):
         return "%s %s %s %s" % (k, rand_view(rng, n), rand_view(rng, n), xv())
